@@ -251,14 +251,29 @@ def _run(cmd, **kw):
     return subprocess.run(cmd, stdout=subprocess.PIPE, stderr=subprocess.STDOUT, text=True, **kw)
 
 
-def drive_family(ctx, fam, nparts, extra_args=None):
+THOROUGH_ROUNDS = 3   # the thorough tier drives every family with this many seeds (seed, seed + 101, ...)
+
+
+def drive_rounds(ctx, fam, nparts):
+    """quick: one round with the seed; thorough: THOROUGH_ROUNDS rounds with derived seeds"""
+    outs = []
+    for rnd in range(THOROUGH_ROUNDS if ctx.tier == "thorough" else 1):
+        o, err = drive_family(ctx, fam, nparts, seed=ctx.seed + 101 * rnd, suffix="" if rnd == 0 else "_r%d" % rnd)
+        if err:
+            return outs, err
+        outs += o
+    return outs, None
+
+
+def drive_family(ctx, fam, nparts, extra_args=None, seed=None, suffix=""):
     """run the driver family in nparts processes (even parts debug profile, odd parts release)"""
     tdir = os.path.join(ctx.wdir, "traces")
     jobs = []
+    seed = ctx.seed if seed is None else seed
     for k in range(nparts):
         prof = "debug" if k % 2 == 0 else "release"
-        out = os.path.join(tdir, "%s_%02d_%s.ndjson" % (fam, k, prof))
-        cmd = [ctx.vdrive(prof), fam, "--tier", ctx.tier, "--seed", str(ctx.seed), "--part", "%d/%d" % (k, nparts),
+        out = os.path.join(tdir, "%s%s_%02d_%s.ndjson" % (fam, suffix, k, prof))
+        cmd = [ctx.vdrive(prof), fam, "--tier", ctx.tier, "--seed", str(seed), "--part", "%d/%d" % (k, nparts),
                "--out", out] + (extra_args or [])
         jobs.append((cmd, out))
     res = []
@@ -283,6 +298,7 @@ def execute(plan, ctx):
            "bounds": "lattice coordinates 0..15 (2-D), 0..7 (3-D), 0..3 (4-D), 0..2 (5-D); <= 12/10/8/8 vertices"}
     result = {"rejections": [], "coverage": cov, "direct_violations": []}
     thorough = ctx.tier == "thorough"
+    cov["seed_rounds"] = [ctx.seed + 101 * k for k in range(THOROUGH_ROUNDS if thorough else 1)]
 
     # 1. model-level runs
     for m in plan.get("models", []):
@@ -296,7 +312,7 @@ def execute(plan, ctx):
     for fam, nq, nt in plan.get("families", []):
         n = nt if thorough else nq
         t0 = time.time()
-        outs, err = drive_family(ctx, fam, n)
+        outs, err = drive_rounds(ctx, fam, n)
         if err:
             return {"tool_error": err}
         ctx.log("drove %s: %d traces in %.1fs" % (fam, len(outs), time.time() - t0))
@@ -304,7 +320,7 @@ def execute(plan, ctx):
     for fam, nq, nt in plan.get("pure_families", []):
         n = nt if thorough else nq
         t0 = time.time()
-        outs, err = drive_family(ctx, fam, n)
+        outs, err = drive_rounds(ctx, fam, n)
         if err:
             return {"tool_error": err}
         ctx.log("drove %s: %d traces in %.1fs" % (fam, len(outs), time.time() - t0))
